@@ -674,7 +674,7 @@ func sanitize(s string) string {
 
 func (in *Interp) freshInt(base string, lo, hi *big.Int) *Term {
 	v := Var(in.freshName(base), SInt, lo, hi)
-	if lo != nil && hi != nil && lo.IsInt64() && hi.IsInt64() && hi.Int64()-lo.Int64() < 300 {
+	if lo != nil && hi != nil && lo.IsInt64() && hi.IsInt64() && new(big.Int).Sub(hi, lo).Cmp(big.NewInt(300)) < 0 {
 		n := int(hi.Int64()-lo.Int64()) + 1
 		d := &smallDom{lo: lo.Int64(), bits: make([]bool, n), n: n}
 		for i := range d.bits {
